@@ -386,7 +386,7 @@ theorem buildJob_og {R : Nat} {E : Engine} (hE : EngineOG R E) (d : Defects) (cx
       split
       · exact hs
       · generalize (if w1.oobRev = true then ts.eraseDups.reverse else ts.eraseDups) = ts'
-        have h2 := hE (oobCx1 d cx) ts' w1 hR h1
+        have h2 := hE (oobCx1 d cx t) ts' w1 hR h1
         unfold oobCx1 at h2
         generalize E.ifchangeCmd _ ts' w1 = res at h2
         obtain ⟨rv, w2⟩ := res
